@@ -315,6 +315,12 @@ func Harness_C14_variables() {
 		ex.Use(Introspection{})
 	}
 	ctx := graphql.StartOperationTrace(context.Background())
+	if zzsym.Choice("cancelled", 2) == 1 {
+		// the caller has gone away before the gate is asked: its verdict is the same
+		cctx, cancel := context.WithCancel(ctx)
+		cancel()
+		ctx = cctx
+	}
 	if prior := zzsym.Choice("prior", 3); prior > 0 {
 		// the same text was served before with another value of the variable, with a query cache (the parsed
 		// document is shared between the two requests): the gate judges each request by its own variables
